@@ -34,11 +34,15 @@ let run_mll () =
   done with End_of_file -> ())
 
 let kind_of_string = function
-  | "ok" -> KOk | "missing" -> KMissing | "garbage" -> KGarbage | "badhdr" -> KBadHdr | "dir" -> KDir
+  | "ok" | "okL" | "okB" | "okE" -> KOk | "missing" -> KMissing | "garbage" -> KGarbage | "badhdr" -> KBadHdr | "dir" -> KDir
   | s -> failwith ("kind " ^ s)
+let layout_of_string = function "okL" -> LLegacy | "okB" -> LBig | "okE" -> LLittle | _ -> LNative
+let attr_str (x : fattr) =
+  let ch n = if n2i n = 0 then "0" else if n2i n = 32 then "_" else String.make 1 (Char.chr (n2i n)) in
+  Printf.sprintf "%d%s%s%s%d" (if x.a_old then 1 else 0) (ch x.a_fmt) (ch x.a_os) (ch x.a_sep) (if x.a_vupd then 1 else 0)
 
 let run_io () =
-  let w = ref { kinds = []; wlinks = []; wdlinks = [] } and s = ref io_init and live = ref [] and fuel = i2n 20000 in
+  let w = ref { kinds = []; wlinks = []; wdlinks = []; layouts = [] } and s = ref io_init and live = ref [] and fuel = i2n 20000 in
   let dump () =
     let b = Buffer.create 200 in
     Buffer.add_string b (Printf.sprintf " | io %d %d " (n2i !s.nopen) (List.length !s.iol));
@@ -47,10 +51,11 @@ let run_io () =
         if n2i i < List.length !s.io_adf.tab then string_of_int (n2i i) else "?") !s.iol));
     Buffer.add_string b (Printf.sprintf " | adf %d " (List.length !s.io_adf.tab));
     if !s.io_adf.tab = [] then Buffer.add_string b "-" else
-      Buffer.add_string b (String.concat ";" (List.map (fun sl ->
+      Buffer.add_string b (String.concat ";" (List.mapi (fun idx sl ->
         let iu = n2i sl.in_use in
-        Printf.sprintf "%d:%d:%s" iu (if iu > 0 then (match sl.fname with Some n -> n2i n | None -> -1) else -1)
-          (if iu = 0 || sl.links = [] then "-" else String.concat "," (List.map (fun x -> string_of_int (n2i x)) sl.links)))
+        Printf.sprintf "%d:%d:%s:%s" iu (if iu > 0 then (match sl.fname with Some n -> n2i n | None -> -1) else -1)
+          (if iu = 0 || sl.links = [] then "-" else String.concat "," (List.map (fun x -> string_of_int (n2i x)) sl.links))
+          (if iu = 0 then "-" else attr_str (try List.nth !s.io_adf.amem idx with _ -> zero_attr)))
         !s.io_adf.tab));
     Buffer.add_string b (" | live " ^ live_str !live);
     Buffer.contents b in
@@ -63,7 +68,7 @@ let run_io () =
         let kinds = List.map kind_of_string (String.split_on_char ',' ks) in
         let wl = if ls = "-" then [] else List.map (fun e -> match String.split_on_char '>' e with
                    | [a; b] -> (i2n (int_of_string a), i2n (int_of_string b)) | _ -> failwith "link") (String.split_on_char ',' ls) in
-        w := { kinds = kinds; wlinks = wl; wdlinks = [] }; s := io_init; live := [];
+        w := { kinds = kinds; wlinks = wl; wdlinks = []; layouts = List.map layout_of_string (String.split_on_char ',' ks) }; s := io_init; live := [];
         print_string ("world ok" ^ dump () ^ "\n")
     | ["open"; n; m] | ["close"; n; m] when false -> ignore (n, m)
     | ["open"; n; m] ->
